@@ -59,7 +59,11 @@ def run_semantic(ctx, module, level, rule, flags_list, relation, origins, extra,
             extra += list(r.get("extra_programs", []))[:40]
             ctx.cov["samples"].append({"correspondence": name, "evaluations": r["evaluations"], "nontrivial": r["nontrivial"]})
     for g in generators:
-        extra += [g(ctx.rng) for _ in range((40 if ctx.quick() else 1500) // max(1, len(generators)))]
+        progs = [g(ctx.rng) for _ in range((40 if ctx.quick() else 1500) // max(1, len(generators)))]
+        extra += progs
+        # the same shapes with a source variable that carries the name a fresh-variable request would produce
+        import gen
+        extra += [q for q in (gen.collide_vars(ctx.rng, x) for x in progs[:max(4, len(progs) // 6)] if isinstance(x, str)) if q not in progs]
     _tick(ctx, 'correspondence + generators')
     semprop.replay_known(ctx)
     _tick(ctx, 'replay of known witnesses')
